@@ -1,6 +1,248 @@
-(** Props/C02.v — stub, replaced below. *)
-From Coq Require Import ZArith List Bool.
-From NS Require Import Base.NoteSeq Gen.G02 Model.Extract Model.Split.
-Example C02_constants : G_CHORD_SYMBOL = ANN_CHORD_SYMBOL /\ G_BEAT = ANN_BEAT.
-Proof. split; reflexivity. Qed.
+(** Props/C02.v — C02: extracting or splitting a sequence partitions its notes and
+    carries state over.  Only statements, [exact], and [Print Assumptions].
+
+    Vocabulary (Model/Extract.v, Model/Split.v):
+      [extract_subsequences pres s ts]  model of [_extract_subsequences(s, ts, pres)]
+      [intervals ts]                    the pieces [(t_0,t_1); (t_1,t_2); ...]
+      [in_piece a b x]                  a <= x < b
+      [clipshift a b n]                 n with start - a and min(end, b) - a
+      [in_effect time set evs t]        the last event in stable time order with time <= t, time erased
+      [with_key (instr, num) ccs]       the control changes of one instrument and control number
+      [state_spec], [notes_spec], [beats_spec], [pedal_spec]   the filter/map/last specification
+      [finish total valid]              valid ++ [total] if total > last valid
+      [split_allowed skip notes t]      not (skip and some note has start < t < end) *)
+From Coq Require Import ZArith List Bool Permutation Sorted.
+From NS Require Import Base.NoteSeq Gen.G02 Model.Extract Model.Split
+     Proofs.ExtractSort Proofs.ExtractWalk Proofs.Extract Proofs.Split.
+Import ListNotations.
+Local Open Scope Z_scope.
+
+(** The annotation-type constants the model uses are the ones the code uses now. *)
+Example C02_constants :
+  G_CHORD_SYMBOL = ANN_CHORD_SYMBOL /\ G_BEAT = ANN_BEAT /\ G_UNKNOWN = ANN_UNKNOWN.
+Proof. repeat split; reflexivity. Qed.
 Print Assumptions C02_constants.
+
+(** * Which arguments are rejected *)
+Theorem C02_extract_accepts_iff : forall pres s ts,
+  (exists ps, extract_subsequences pres s ts = Ok ps) <->
+  is_quantized s = false /\ (2 <= length ts)%nat /\ StronglySorted Z.le ts /\
+  Forall (fun t => t < s_total s) (removelast ts).
+Proof. exact extract_ok_iff. Qed.
+Print Assumptions C02_extract_accepts_iff.
+
+Theorem C02_extract_error_cases : forall pres s ts e,
+  extract_subsequences pres s ts = Err e ->
+  match e with
+  | ErrQuantized => is_quantized s = true
+  | ErrTooFew => (length ts < 2)%nat
+  | ErrUnsorted => ~ StronglySorted Z.le ts
+  | ErrPastEnd => ~ Forall (fun t => t < s_total s) (removelast ts)
+  | ErrZeroHop => False
+  end.
+Proof. exact extract_error_cases. Qed.
+Print Assumptions C02_extract_error_cases.
+
+(** * Refinement: every piece is the filter/map/last specification of its interval *)
+Theorem C02_extract_refines_spec : forall pres s ts ps,
+  extract_subsequences pres s ts = Ok ps ->
+  length ps = length (intervals ts) /\
+  forall i a b p, nth_error (intervals ts) i = Some (a, b) -> nth_error ps i = Some p ->
+    s_notes p = notes_spec a b (sort_by n_start (s_notes s)) /\
+    s_tempos p = state_spec tp_time tempo_with_time a b (s_tempos s) /\
+    s_tsigs p = state_spec ts_time tsig_with_time a b (s_tsigs s) /\
+    s_ksigs p = state_spec ks_time ksig_with_time a b (s_ksigs s) /\
+    s_texts p = state_spec tx_time text_with_time a b (chords_of s) ++ beats_spec a b (beats_of s) /\
+    (forall kk, with_key kk (s_ccs p) = pedal_spec pres kk a b s) /\
+    s_total p = max_end (s_notes p) /\
+    s_sub p = (a, s_total s - a - s_total p).
+Proof. exact extract_refines_spec. Qed.
+Print Assumptions C02_extract_refines_spec.
+
+(** * Notes are partitioned *)
+Theorem C02_extract_notes_partition : forall pres s ts ps,
+  extract_subsequences pres s ts = Ok ps ->
+  forall i a b p, nth_error (intervals ts) i = Some (a, b) -> nth_error ps i = Some p ->
+  Permutation (s_notes p)
+              (map (clipshift a b) (filter (fun n => in_piece a b (n_start n)) (s_notes s))).
+Proof. exact extract_notes_partition. Qed.
+Print Assumptions C02_extract_notes_partition.
+
+Theorem C02_clipshift_changes_only_times : forall a b n,
+  let m := clipshift a b n in
+  n_start m = n_start n - a /\ n_end m = Z.min (n_end n) b - a /\
+  n_pitch m = n_pitch n /\ n_vel m = n_vel n /\ n_instr m = n_instr n /\ n_prog m = n_prog n /\
+  n_drum m = n_drum n /\ n_qstart m = n_qstart n /\ n_qend m = n_qend n /\ n_rest m = n_rest n.
+Proof. exact clipshift_fields. Qed.
+Print Assumptions C02_clipshift_changes_only_times.
+
+Theorem C02_pieces_disjoint : forall ts, StronglySorted Z.le ts ->
+  forall i j a b a' b' x,
+    nth_error (intervals ts) i = Some (a, b) -> nth_error (intervals ts) j = Some (a', b') ->
+    in_piece a b x = true -> in_piece a' b' x = true -> i = j.
+Proof. exact intervals_disjoint. Qed.
+Print Assumptions C02_pieces_disjoint.
+
+Theorem C02_pieces_cover : forall ts x, ts <> [] -> nth 0 ts 0 <= x < last ts 0 ->
+  exists i a b, nth_error (intervals ts) i = Some (a, b) /\ in_piece a b x = true.
+Proof. exact intervals_cover. Qed.
+Print Assumptions C02_pieces_cover.
+
+(** * State carried over: the value in effect at every instant of every piece *)
+Theorem C02_extract_state_in_effect : forall pres s ts ps,
+  extract_subsequences pres s ts = Ok ps ->
+  forall i a b p, nth_error (intervals ts) i = Some (a, b) -> nth_error ps i = Some p ->
+  forall tau, 0 <= tau < b - a ->
+    in_effect tp_time tempo_with_time (s_tempos p) tau
+      = in_effect tp_time tempo_with_time (s_tempos s) (a + tau) /\
+    in_effect ts_time tsig_with_time (s_tsigs p) tau
+      = in_effect ts_time tsig_with_time (s_tsigs s) (a + tau) /\
+    in_effect ks_time ksig_with_time (s_ksigs p) tau
+      = in_effect ks_time ksig_with_time (s_ksigs s) (a + tau) /\
+    in_effect tx_time text_with_time (chords_of p) tau
+      = in_effect tx_time text_with_time (chords_of s) (a + tau) /\
+    forall kk, in_effect cc_time cc_with_time (with_key kk (s_ccs p)) tau
+               = in_effect cc_time cc_with_time (with_key kk (pedals_of pres s)) (a + tau).
+Proof. exact extract_state_in_effect. Qed.
+Print Assumptions C02_extract_state_in_effect.
+
+(** * Beats, total_time, subsequence_info *)
+Theorem C02_extract_beats : forall pres s ts ps,
+  extract_subsequences pres s ts = Ok ps ->
+  forall i a b p, nth_error (intervals ts) i = Some (a, b) -> nth_error ps i = Some p ->
+  Permutation (beats_of p)
+              (map (fun e => text_with_time e (tx_time e - a))
+                   (filter (fun e => in_piece a b (tx_time e)) (beats_of s))).
+Proof. exact extract_beats. Qed.
+Print Assumptions C02_extract_beats.
+
+Theorem C02_extract_total_time : forall pres s ts ps,
+  extract_subsequences pres s ts = Ok ps ->
+  forall i a b p, nth_error (intervals ts) i = Some (a, b) -> nth_error ps i = Some p ->
+  s_total p = max_end (s_notes p) /\
+  s_sub p = (a, s_total s - a - s_total p).
+Proof. exact extract_total_time. Qed.
+Print Assumptions C02_extract_total_time.
+
+Theorem C02_max_end_is_last_note_end : forall ns,
+  Forall (fun n => n_end n <= max_end ns) ns /\
+  (max_end ns = 0 \/ exists n, In n ns /\ n_end n = max_end ns).
+Proof. exact max_end_spec. Qed.
+Print Assumptions C02_max_end_is_last_note_end.
+
+(** * trim_note_sequence *)
+Theorem C02_trim_spec : forall s a b,
+  (is_quantized s = true -> trim s a b = Err ErrQuantized) /\
+  (is_quantized s = false ->
+   exists p, trim s a b = Ok p /\
+     s_notes p = map (fun n => note_with_times n (n_start n) (Z.min (n_end n) b))
+                     (filter (fun n => in_piece a b (n_start n)) (s_notes s)) /\
+     s_total p = Z.min (s_total s) b /\
+     s_tempos p = s_tempos s /\ s_tsigs p = s_tsigs s /\ s_ksigs p = s_ksigs s /\
+     s_texts p = s_texts s /\ s_ccs p = s_ccs s /\ s_bends p = s_bends s /\ s_sects p = s_sects s).
+Proof. exact trim_spec. Qed.
+Print Assumptions C02_trim_spec.
+
+Theorem C02_trim_agrees_with_extract : forall pres s a b p q,
+  trim s a b = Ok p -> extract_subsequence pres s a b = Ok q ->
+  Permutation (s_notes q)
+              (map (fun n => note_with_times n (n_start n - a) (n_end n - a)) (s_notes p)).
+Proof. exact trim_vs_extract. Qed.
+Print Assumptions C02_trim_agrees_with_extract.
+
+(** * Split points: list form and hop form of split_note_sequence *)
+Theorem C02_split_list_points : forall s l skip,
+  split_list s l skip =
+  extract_valid s (finish (s_total s)
+                          (0 :: filter (split_allowed skip (s_notes s)) (sort_by (fun t => t) l))).
+Proof. exact split_list_spec. Qed.
+Print Assumptions C02_split_list_points.
+
+Theorem C02_hop_multiples : forall hop total t, 0 < hop ->
+  (In t (arange hop total) <-> exists k, 1 <= k /\ t = k * hop /\ t < total).
+Proof. exact arange_In. Qed.
+Print Assumptions C02_hop_multiples.
+
+Theorem C02_split_hop_points : forall s hop skip, 0 < hop ->
+  let valid := finish (s_total s) (0 :: filter (split_allowed skip (s_notes s)) (arange hop (s_total s))) in
+  split_hop s hop skip = extract_valid s valid /\ strictly_inc valid /\
+  (is_quantized s = false -> exists ps, split_hop s hop skip = Ok ps).
+Proof. exact split_hop_spec. Qed.
+Print Assumptions C02_split_hop_points.
+
+Theorem C02_split_hop_nonpositive : forall s hop skip,
+  (hop = 0 -> split_hop s hop skip = Err ErrZeroHop) /\
+  (hop < 0 -> split_hop s hop skip = extract_valid s (finish (s_total s) [0])).
+Proof. exact split_hop_nonpositive. Qed.
+Print Assumptions C02_split_hop_nonpositive.
+
+(** * Split points: time-signature and tempo changes *)
+Theorem C02_split_time_change_points : forall s skip,
+  exists pts,
+    tc_valid s skip = finish (s_total s) (0 :: pts) /\
+    strictly_inc (0 :: pts) /\
+    (forall t, In t pts <->
+               In t (map tc_time (genuine tc_init (tc_events s))) /\ 0 < t /\
+               split_allowed skip (s_notes s) t = true) /\
+    strictly_inc (tc_valid s skip) /\
+    (is_quantized s = false -> exists ps, split_time_changes s skip = Ok ps).
+Proof. exact tc_valid_points. Qed.
+Print Assumptions C02_split_time_change_points.
+
+Theorem C02_time_change_candidates_before_total : forall s t,
+  In t (map tc_time (genuine tc_init (tc_events s))) -> t < s_total s.
+Proof. exact tc_candidates_before_total. Qed.
+Print Assumptions C02_time_change_candidates_before_total.
+
+(** * Split points: silence *)
+Theorem C02_split_silence_points : forall s gap,
+  exists pts,
+    silence_valid s gap = finish (s_total s) (0 :: pts) /\
+    (forall t, In t pts <->
+               exists pre n post, sort_by n_start (s_notes s) = pre ++ n :: post /\
+                                  t = n_start n /\ n_start n > active 0 pre + gap).
+Proof. exact silence_valid_points. Qed.
+Print Assumptions C02_split_silence_points.
+
+Theorem C02_active_is_latest_end : forall pre la,
+  la <= active la pre /\ Forall (fun n => n_end n <= active la pre) pre /\
+  (active la pre = la \/ exists n, In n pre /\ n_end n = active la pre).
+Proof. exact active_spec. Qed.
+Print Assumptions C02_active_is_latest_end.
+
+Theorem C02_split_silence_increasing_and_accepted : forall s gap,
+  0 <= gap -> Forall (fun n => n_start n <= n_end n /\ n_end n <= s_total s) (s_notes s) ->
+  strictly_inc (silence_valid s gap) /\
+  (is_quantized s = false -> exists ps, split_silence s gap = Ok ps).
+Proof. exact silence_valid_spec. Qed.
+Print Assumptions C02_split_silence_increasing_and_accepted.
+
+(** * Sorting facts the statements above rely on *)
+Theorem C02_sort_is_stable_permutation : forall (l : list note),
+  Permutation (sort_by n_start l) l /\ StronglySorted (fun x y => n_start x <= n_start y) (sort_by n_start l) /\
+  forall p, filter p (sort_by n_start l) = sort_by n_start (filter p l).
+Proof. exact (fun l => conj (sort_by_perm n_start l) (conj (sort_by_sorted n_start l) (fun p => filter_sort_by n_start p l))). Qed.
+Print Assumptions C02_sort_is_stable_permutation.
+
+(** * Non-vacuity: a concrete sequence is accepted, is cut in three pieces, the 90-qpm tempo set
+    before the first cut is carried into every piece, the pedal of instrument 1 likewise, the
+    note crossing the second cut is clipped. *)
+Definition ex_seq : seq :=
+  mkSeq [mkNote 60 100 10 40 0 0 false 0 0 0; mkNote 62 90 35 70 1 0 false 0 0 7]
+        [mkTempo 0 120; mkTempo 5 90] [mkTsig 0 4 4; mkTsig 50 3 4] [] []
+        [mkCc 2 0 64 127 1 0 false; mkCc 45 0 64 0 1 0 false] [] []
+        80 0 0 0 (0, 0) 220 0.
+
+Example C02_nonvacuous :
+  exists p0 p1 p2,
+    extract_subsequences [64] ex_seq [10; 40; 60; 80] = Ok [p0; p1; p2] /\
+    s_notes p0 = [mkNote 60 100 0 30 0 0 false 0 0 0; mkNote 62 90 25 30 1 0 false 0 0 7] /\
+    s_tempos p0 = [mkTempo 0 90] /\ s_tempos p2 = [mkTempo 0 90] /\
+    s_tsigs p1 = [mkTsig 0 4 4; mkTsig 10 3 4] /\
+    s_ccs p0 = [mkCc 0 0 64 127 1 0 false] /\ s_ccs p1 = [mkCc 0 0 64 127 1 0 false; mkCc 5 0 64 0 1 0 false] /\
+    s_total p0 = 30 /\ s_sub p1 = (40, 40) /\
+    tc_valid ex_seq false = [0; 5; 50; 80] /\
+    silence_valid (mkSeq [mkNote 60 100 0 10 0 0 false 0 0 0; mkNote 60 100 50 60 0 0 false 0 0 0]
+                         [] [] [] [] [] [] [] 60 0 0 0 (0, 0) 220 0) 30 = [0; 50; 60].
+Proof. vm_compute. do 3 eexists. repeat split; reflexivity. Qed.
+Print Assumptions C02_nonvacuous.
